@@ -213,6 +213,17 @@ def user_worlds(max_units, factors, forms):
 
 
 DERIVED_WORLDS = [
+    # two types whose classes have the same name; a Python sub-class of a
+    # quantized type that declares no quantum itself (its amounts are exact)
+    [['type', 'L#1', 'l0', None],
+     ['unit', 'L#1', 'l1', ['scaled', 'i:1000', 'l0']],
+     ['type', 'L#2', 'ell', None],
+     ['unit', 'L#2', 'kell', ['scaled', 'i:1000', 'ell']],
+     ['type', 'QP', 'qp0', 'F:1/8'],
+     ['unit', 'QP', 'kqp', ['scaled', 'i:1000', 'qp0']],
+     ['type', 'QPs', 'pl', None, 'QP'],
+     ['unit', 'QPs', 'kpl', ['scaled', 'i:1000', 'pl']],
+     ['unit', 'QPs', 'pl3', ['scaled', 'F:1/3', 'pl']]],
     # units with a negative scale (conversion flips the sign)
     [['type', 'NG', 'g0', None],
      ['unit', 'NG', 'gneg', ['scaled', 'F:-1/4', 'g0']],
